@@ -35,6 +35,7 @@ PROPS = {
             'balanced; Err names a quantity that really exceeds its limit, with its value',
             'per-document enforcement: a document start restores the fresh state from ANY prior state',
             'finalize: the documented alias/anchor ratio rule, exactly, without overflow',
+            'budget::check_yaml_budget (the public stand-alone check): loop invariant - the enforcer state equals the independent count of the events read so far and is within the limits; a report without breach is that count over EVERY event of the text (events, nodes, aliases, anchors, scalar bytes, merge keys, documents, depth high-water mark); a breach is reported at the first event the independent count rejects, with a justified breach value; a scan error is passed on (the parser is an assumed source of events)',
             'BudgetEnforcer::new: a new enforcer has counted nothing (every counter zero, no anchor, no open container, no breach) and holds the limits and the policy it was given; every construction site of the event source hands it the options\' budget unchanged',
         ],
         not_covered=[
